@@ -558,6 +558,63 @@ def gen_advanced_exh(ctx):
                             node, data, expected, mq, sq, structural=True)
 
 
+def gen_advanced_repeat(ctx):
+    """advanced indexing where index OPERANDS repeat: the SAME array object / an EQUAL but distinct object /
+    distinct arrays with equal contents, on two or three axes of DIFFERENT lengths (each axis wraps negative
+    entries by its OWN length), entries over the whole common range [-m, m) incl. -1 and -m; contiguous and
+    non-contiguous placements (slices / ints in between); also an array indexed by itself (x[x])"""
+    import pytato as pt
+    shapes = [(3, 5), (5, 3), (3, 4, 5), (4, 2, 3), (2, 5, 3, 4)]
+    ishapes = [(2,), (), (2, 3), (1,), (4,)]
+    fill = [slice(None), slice(1, None), slice(None, None, -1), 0, -1]
+    for s in shapes:
+        a = _data(s)
+        r = len(s)
+        for apos in [c for k in (2, 3) for c in itertools.combinations(range(r), k)]:
+            m = min(s[d] for d in apos)
+            for ish in ishapes:
+                cnt = int(np.prod(ish)) if ish else 1
+                vals = [(-m + (j * 5 + len(apos) + s[0]) % (2 * m)) for j in range(cnt)]
+                if cnt >= 2:
+                    vals[0], vals[-1] = -1, -m        # the boundary entries
+                ia = np.array(vals, dtype=np.int64).reshape(ish)
+                for mode in ("same", "equal", "distinct", "first-two-same"):
+                    for fi, f in enumerate(fill):
+                        if r == len(apos) and fi:
+                            continue
+                        shared = _ph("i", ish, ia.dtype)
+                        idx_py, idx_pt, data = [], [], {"x": a, "i": ia}
+                        for d in range(r):
+                            if d in apos:
+                                k = apos.index(d)
+                                if mode == "same" or (mode == "first-two-same" and k < 2):
+                                    ph = shared
+                                elif mode == "equal":
+                                    ph = _ph("i", ish, ia.dtype)
+                                else:
+                                    ph = _ph(f"j{d}", ish, ia.dtype)
+                                    data[f"j{d}"] = ia
+                                idx_py.append(ia)
+                                idx_pt.append(ph)
+                            else:
+                                idx_py.append(f)
+                                idx_pt.append(f)
+                        expected = a[tuple(idx_py)]
+                        node = _ph("x", s)[tuple(idx_pt)]
+                        mq, sq = _adv_wire(node, idx_py, s, a)
+                        yield LCase("advindex_repeat", {"shape": s, "axes": apos, "mode": mode, "index_shape": ish,
+                                                        "index": ia.tolist(), "other": repr(f)},
+                                    node, data, expected, mq, sq, structural=True)
+    # an integer array indexed by itself (the same object is the indexed operand and the index), on one axis and
+    # on the first of two
+    for n in (1, 3, 4):
+        xv = np.array([(-n + (j * 3 + 1) % (2 * n)) for j in range(n)], dtype=np.int64)
+        xi = _ph("xi", (n,))
+        yield LCase("advindex_repeat", {"shape": (n,), "mode": "self", "index": xv.tolist()}, xi[xi], {"xi": xv},
+                    xv[xv], f"(lower advindex ? ((arr ({n}))) ({n}))",
+                    f"(spec advindex ? ((arr ({n}) {ser.vals(xv)})) ({n}) {ser.vals(xv)})", structural=True)
+
+
 _EINSUM_LETTERS = "ijkl"
 
 
@@ -775,7 +832,7 @@ def gen_csr(ctx):
 
 
 GENS = [gen_slice1d, gen_roll, gen_transpose, gen_reshape, gen_basic_nd, gen_stack_concat, gen_pad,
-        gen_advanced, gen_advanced_exh, gen_einsum, gen_einsum_exh, gen_reduce, gen_csr]
+        gen_advanced, gen_advanced_exh, gen_advanced_repeat, gen_einsum, gen_einsum_exh, gen_reduce, gen_csr]
 
 
 # ---------------------------------------------------------------- the API layer: operators, where
@@ -1480,7 +1537,7 @@ def run(ctx: common.Ctx):
                 chunk = []
         if chunk:
             dis += process(ctx, chunk)
-        exhaustive = name in ("slice1d", "roll", "transpose", "stack_concat", "pad", "reduce") or \
+        exhaustive = name in ("slice1d", "roll", "transpose", "stack_concat", "pad", "reduce", "advanced_repeat") or \
             (name == "reshape" and ctx.thorough)
         ctx.note_batch(name, n, dis, exhaustive=exhaustive, kinds=kinds)
     pad_symbolic(ctx, prop="C02")
